@@ -406,7 +406,7 @@ def g5i_identifier_padding(prog):
     return r
 
 
-@rule('G5ii', props=['C11', 'C13'], floor=1, configs=('all',))
+@rule('G5ii', props=['C11', 'C13', 'C06'], floor=2, configs=('all',))
 def g5ii_duplicate_archetype(prog):
     """ArchetypesVisitor::visit_seq: the result of Archetypes::insert is inspected and the Err (duplicate
     identifier) arm makes deserialisation fail."""
@@ -436,6 +436,24 @@ def g5ii_duplicate_archetype(prog):
                 errs = set(result_blocks(body, 'Err'))
                 if errs & reach and not (set(result_blocks(body, 'Ok')) & reach):
                     ok = True
+    # the world's entity count is accumulated from the length of every archetype read, once per archetype
+    adds = []
+    for b2, i2, s2 in body.stmts():
+        if s2['k'] == 'assign' and s2['place']['p'] and s2['rv']['k'] == 'binop' and s2['rv']['op'].startswith('Add'):
+            nm = receiver_name(prog, body, {'copy': s2['place']}) or ''
+            if nm.endswith('.len') or nm.endswith('len'):
+                adds.append((b2, i2, s2))
+    r.inst('ArchetypesVisitor::visit_seq: %d len accumulation(s)' % len(adds))
+    if len(adds) != 1:
+        r.viol('G5ii', 'len-accumulation', f.loc(), 'the deserialised world\'s entity count must be accumulated exactly once per archetype read (found %d additions)' % len(adds))
+    else:
+        ab, ai, as_ = adds[0]
+        l = op_local(as_['rv']['b'])
+        d = resolve_def(body, l) if l is not None else None
+        if not (d and d[0] == 'call' and d[2]['f']['name'] == 'len' and 'Archetype' in d[2]['f']['path']):
+            r.viol('G5ii', 'len-addend', f.loc(as_['ln']), 'the amount added to the world\'s entity count is not the length of the archetype just read')
+        if ab not in body.reachable_after(ab) or not (body.dominates(ab, b) or body.dominates(b, ab)):
+            r.viol('G5ii', 'len-not-per-archetype', f.loc(as_['ln']), 'the entity count is not updated in step with the insertion of each archetype')
     if not ok:
         r.viol('G5ii', 'duplicate-accepted', f.loc(t['ln']), 'a duplicate archetype identifier in the input (Archetypes::insert returned Err) does not fail deserialisation: two tables for one component set')
     return r
